@@ -1,2 +1,38 @@
--- line-protocol model driver for C18 (stub)
-def main : IO Unit := IO.println "stub C18"
+import JanetModel.Sandbox.Model
+import Driver.Util
+/- line-protocol driver for C18: the flag-word model.
+   `sandbox <flags> <mask>`          -> `some <flags'>` | `none` (panic)
+   `assert <flags> <mask>`           -> `pass` | `panic`
+   `run <flags0> <op>*`              -> thread flag words after the ops; op = s<tid>:<mask> | t<tid> (spawn from tid) -/
+open JanetModel.Sandbox
+
+def parseOp (s : String) : Option SysOp :=
+  match s.toList with
+  | 's' :: rest =>
+    match (String.ofList rest).splitOn ":" with
+    | [a, b] => match a.toNat?, b.toNat? with
+                | some t, some m => some (.sandbox t m)
+                | _, _ => none
+    | _ => none
+  | 't' :: rest => (String.ofList rest).toNat?.map .spawn
+  | _ => none
+
+def step (_ : Unit) (toks : List String) : Unit × String :=
+  match toks with
+  | ["sandbox", a, b] =>
+    match a.toNat?, b.toNat? with
+    | some fl, some m => ((), match sandboxOp fl m with | some x => s!"some {x}" | none => "none")
+    | _, _ => ((), "error")
+  | ["assert", a, b] =>
+    match a.toNat?, b.toNat? with
+    | some fl, some m => ((), if assertPasses fl m then "pass" else "panic")
+    | _, _ => ((), "error")
+  | "run" :: a :: ops =>
+    match a.toNat? with
+    | some fl =>
+      let os := ops.filterMap parseOp
+      ((), " ".intercalate ((Sys.run [fl] os).map toString))
+    | none => ((), "error")
+  | _ => ((), "error")
+
+def main : IO Unit := Driver.runLoop () step
